@@ -918,4 +918,56 @@ example (c : Cfg) : ∃ l r, l ++ r = [Val.int .int 5, .int .int 6, .int .int 7]
     ⟨by unfold compiled; rfl, by decide, by decide, (fun h => by cases h), ⟨trivial, trivial, trivial⟩⟩
 
 
+/-! ### closures see their innermost collection — on the VM -/
+
+open ExprModel.Refine ExprModel in
+/-- **`closure_sees_innermost_vm`**: the compiled code of any tree `n` (in particular the body of a closure, at any
+    nesting depth), placed anywhere in a program, run by the byte-level VM from two states whose scope stacks
+    represent two closure contexts with the **same innermost entry** (collection and index) — whatever lies below
+    it, however deep the nesting — and the same counters, ends alike: the same value pushed, or the same failure
+    class, with the same counters and call log.  C01's refinement (for an arbitrary context) composed with
+    `eval_depends_on_innermost_only`.  Hypotheses as in C01 `compile_correct_partial`. -/
+theorem closure_sees_innermost_vm (n : Node) (cfg : CompCfg) (pool pool' : Pool) (code : List LInstr) (F : Val → Prop)
+    (hc : compileNode cfg n pool = .ok (code, pool')) (hF : AliasFree F) (hinv : PoolInv F pool) (hfl : FloatsIn F n)
+    (P : Prog) (pre post : List LInstr)
+    (hP : P.code = (encodeAll ((pre ++ code ++ post).map (·.instr))).toArray) (hK : PoolExt pool' P.consts)
+    (hfit : FitsU16 code) (c : Cfg) (henv : EnvOK c cfg) (hg : Good (SmallColl c) n)
+    (ctx1 ctx2 : Ctx) (hhead : ctx1.head? = ctx2.head?) (s1 s2 : VM)
+    (hip1 : s1.ip = lsize pre) (hip2 : s2.ip = lsize pre) (hl1 : s1.limit = c.budget) (hl2 : s2.limit = c.budget)
+    (hsc1 : ScopesOK ctx1 s1.scopes) (hsc2 : ScopesOK ctx2 s2.scopes) (hobs : obs s1 = obs s2) :
+    (∃ v σ' t1 t2, Steps c P s1 t1 ∧ Steps c P s2 t2 ∧ t1.stack = v :: s1.stack ∧ t2.stack = v :: s2.stack ∧
+        t1.scopes = s1.scopes ∧ t2.scopes = s2.scopes ∧ obs t1 = σ' ∧ obs t2 = σ') ∨
+    (∃ e σ' a1 b1 a2 b2, Steps c P s1 a1 ∧ step c P a1 = .error (e, b1) ∧ Steps c P s2 a2 ∧
+        step c P a2 = .error (e, b2) ∧ obs b1 = σ' ∧ obs b2 = σ') := by
+  have h1 := C01.compile_correct_partial n cfg pool pool' code F hc hF hinv hfl P pre post hP hK hfit c henv hg ctx1
+    s1 hip1 hl1 hsc1
+  have h2 := C01.compile_correct_partial n cfg pool pool' code F hc hF hinv hfl P pre post hP hK hfit c henv hg ctx2
+    s2 hip2 hl2 hsc2
+  have heq : eval (specOf c) ctx2 n (obs s2) = eval (specOf c) ctx1 n (obs s1) := by
+    rw [eval_depends_on_innermost_only (specOf c) ctx1 ctx2 hhead n, hobs]
+  rcases hr : eval (specOf c) ctx1 n (obs s1) with ⟨r, σ'⟩
+  have g1 := h1 r σ' hr
+  have g2 := h2 r σ' (heq.trans hr)
+  cases r with
+  | ok v =>
+    obtain ⟨t1, st1, _, hs1, hc1, _, ho1⟩ := g1
+    obtain ⟨t2, st2, _, hs2, hc2, _, ho2⟩ := g2
+    exact Or.inl ⟨v, σ', t1, t2, st1, st2, hs1, hs2, hc1, hc2, ho1, ho2⟩
+  | error e =>
+    obtain ⟨a1, b1, sa1, _, hb1, ho1⟩ := g1
+    obtain ⟨a2, b2, sa2, _, hb2, ho2⟩ := g2
+    exact Or.inr ⟨e, σ', a1, b1, a2, b2, sa1, hb1, sa2, hb2, ho1, ho2⟩
+
+/-- non-vacuity of the scope hypotheses: the same innermost scope (element 1 of `[5, 6]`) on top of nothing, and on
+    top of two enclosing loops over other collections — both represent contexts with the same head -/
+example :
+    let coll : Val := .arr .iface [.int .int 5, .int .int 6]
+    let sc : Scope := [("array", coll), ("i", .int .int 1)]
+    let out1 : Scope := [("array", .arr .iface [.str "x"]), ("i", .int .int 0)]
+    let out2 : Scope := [("array", .arr .iface []), ("i", .int .int 7), ("count", .int .int 3)]
+    Refine.ScopesOK [(coll, 1)] [sc] ∧
+    Refine.ScopesOK [(coll, 1), (.arr .iface [.str "x"], 0), (.arr .iface [], 7)] [sc, out1, out2] ∧
+    ([(coll, (1 : Int))] : Ctx).head? = ([(coll, 1), (.arr .iface [.str "x"], 0), (.arr .iface [], 7)] : Ctx).head? := by
+  refine ⟨⟨_, _, rfl, rfl, rfl⟩, ⟨_, _, rfl, rfl, rfl⟩, rfl⟩
+
 end ExprModel.C18
